@@ -95,6 +95,11 @@ int main(int argc, char** argv) {
             auto axisOf = [&](const mj::Value& a) { const double sc = std::pow(5.0, a["e"].dbl()); return UnitVec3(Vec3(a["n"][0].dbl() / sc, a["n"][1].dbl() / sc, a["n"][2].dbl() / sc)); };
             for (auto& k : c["cons"].arr()) {
                 const string t = k["type"].str(); MobilizedBody& b1 = mb[(int)k["b1"].num()];
+                if (k.has("weld")) {     // six spec entries (three orientation, three position equations), one library Weld
+                    if (k["part"].num() == 0) { cons.push_back(Constraint::Weld(b1, Transform(frameRot(k["RB"]), vec(k["pB"])), mb[(int)k["b2"].num()], Transform(frameRot(k["RF"]), vec(k["pF"])))); cons.back().setDisabledByDefault(true); }
+                    else cons.push_back(Constraint());
+                    continue;
+                }
                 if (t == "ballc") {      // one library Ball for the three spec entries
                     if (k["part"].num() == 0) { cons.push_back(Constraint::Ball(b1, vec(k["st"]), mb[(int)k["b2"].num()], vec(k["st2"]))); cons.back().setDisabledByDefault(true); }
                     else cons.push_back(Constraint());
